@@ -161,6 +161,17 @@ add("C09", "CH (+ concrete table diff)",
     "<= 2 entries quick / 3 thorough; durations from a menu of 4 (float parsing is C code, _to_float otherwise outside); "
     "the retry loop, back-off sleeps, deadlines and per-call overrides are api_core behaviour and outside the claim.")
 
+add("C08", "CH",
+    "CrossHair (z3) enumeration with solver-proved exhaustion over the real API.build on LRO annotations assembled from "
+    "symbolic selectors; CrossHair on the emitted LRO client methods with a recording from_gapic",
+    "Generation-time clause and wiring: for ALL (output type, annotation present, response/metadata name kind) an "
+    "un-annotated Operation method stays raw, an annotated one lacking a name is rejected, otherwise both types resolve "
+    "relative to the method's package even from a file that is not imported; the emitted sync/async methods build the "
+    "future from the reply, the transport's operations client and exactly those classes.",
+    "DESIGN.md section 5 C08",
+    "Type names from a menu of 6; polling histories, Any unpacking and the operations client itself are api_core/gRPC "
+    "behaviour and outside the claim.")
+
 PENDING = {}
 
 
